@@ -179,3 +179,23 @@ def iandList (l o : List CP) : List CP :=
 def ixorList (l o : List CP) : List CP := ixor l (ofList o)
 
 end EPV.USet
+
+namespace EPV.USet
+
+/-- reflected difference `iterable - self` (`__rsub__`, after the F13h repair): a new subset is
+filled from the iterable with `update`, then `-= self` -/
+def rsubList (l o : List CP) : List CP := isub (update [] o) l
+
+/-- in-place operators whose operand is the subset itself (`s |= s`, `s -= s`, `s &= s`, `s ^= s`).
+The Python loops run over `reversed(self._codepoints)` while `add`/`discard` edit that same list;
+with disjoint entries each `discard(entry)` deletes exactly the entry the reversed iterator has
+just produced (positions below it are untouched) and each `add(entry)` of an entry already present
+changes nothing, so the aliasing run visits the same entries as a run over a snapshot.  `^=` tests
+`other is self` first and clears. -/
+def iorSelf (l : List CP) : List CP := ior l l
+def isubSelf (l : List CP) : List CP := isub l l
+def iandSelf (l : List CP) : List CP := iand l l
+def ixorSelf (_ : List CP) : List CP := []
+
+end EPV.USet
+
